@@ -447,7 +447,7 @@ pub fn run(args: &Args) -> i32 {
             }
         }
     }
-    engine::par_for(items.len(), args.seed, |_w, n| {
+    let run_item = |n: usize| {
         let (bi, prefix) = &items[n];
         // a prefix of length 2 runs only if its first command alone is extendable; it owns its extensions
         if prefix.len() == 1 {
@@ -464,16 +464,22 @@ pub fn run(args: &Args) -> i32 {
         if run_path(&ctx, &bs[*bi], &m_probe) {
             dfs(&ctx, &bs[*bi], &mut m_probe);
         }
-    });
+    };
+    // items run in worker processes: a subject that aborts the process is charged to its item
+    let counts = |r: &Report| {
+        r.set("states", json!(ctx.states.len()));
+        r.set("transitions", json!(ctx.transitions.load(Ordering::SeqCst)));
+        r.set("traces_validated_against_impl", json!(ctx.transitions.load(Ordering::SeqCst)));
+        r.set("commands_rejected_by_both", json!(ctx.rejected.load(Ordering::SeqCst)));
+    };
+    if engine::run_items_isolated(args, &report, items.len(), &run_item, &counts, &|n| ("sequence-prefix".to_string(), format!("sequences starting with {:?}", items[n].1.iter().map(|i| ctx.alpha[*i].name()).collect::<Vec<_>>()), replay_json(bs[items[n].0].0, &items[n].1, &ctx.alpha))) {
+        return 0;
+    }
     report.sample(replay_json(bs[0].0, &[0, 2, 8], &ctx.alpha));
     report.sample(json!({"alphabet": ctx.alpha.iter().map(|c| c.name()).collect::<Vec<_>>()}));
-    report.set("states", json!(ctx.states.len()));
-    report.set("transitions", json!(ctx.transitions.load(Ordering::SeqCst)));
-    report.set("traces_validated_against_impl", json!(ctx.transitions.load(Ordering::SeqCst)));
     report.set("depth", json!(depth));
     report.set("alphabet_size", json!(ctx.alpha.len()));
     report.set("base_states", json!(bs.iter().map(|b| b.0).collect::<Vec<_>>()));
-    report.set("commands_rejected_by_both", json!(ctx.rejected.load(Ordering::SeqCst)));
     report.set("exhaustive", json!(true));
     report.set("rule", json!("every command sequence of <= depth over the property's alphabet from its base states, replayed from scratch on a fresh real DbMemory (no copies, so in-memory state such as the undo stack is faithful) and on the reference model RefDb; acceptance and the learned ids (sign, freshness) are compared at every command, the property's observation clauses after the last command of every sequence. states = distinct model states reached."));
     report.assume("the reference model follows the property statement and docs/03.references/01.queries.md; ids are learned from results; the order of an element's remaining properties after a key removal is not constrained");
